@@ -21,11 +21,12 @@ import sys
 from mc import boot, core, refmodel as rm
 from mc.core import site
 
-POS = ["a", "b", "c"]
-KW = ["k1", "k2"]
-ANN = {"a": "int", "b": "str", "c": "float", "k1": "bool", "k2": "Optional[int]"}
-DEFAULTS = {"a": "1", "b": "'two'", "c": "3.5", "k1": "True", "k2": "None"}
-DOC_DEFAULTS = {"a": 0, "b": "zero", "c": 0.0, "k1": False, "k2": 0}  # what the docstring claims in 'conflict' mode
+# declaration order is deliberately not alphabetical, and the first name is a substring of "self" / "cls"
+POS = ["s", "b", "e"]
+KW = ["z1", "k2"]
+ANN = {"s": "int", "b": "str", "e": "float", "z1": "bool", "k2": "Optional[int]"}
+DEFAULTS = {"s": "1", "b": "'two'", "e": "3.5", "z1": "True", "k2": "None"}
+DOC_DEFAULTS = {"s": 0, "b": "zero", "e": 0.0, "z1": False, "k2": 0}  # what the docstring claims in 'conflict' mode
 STYLES = ("rest", "numpydoc", "google")
 FORMS = ("function", "self", "cls", "class_init")
 
@@ -314,8 +315,8 @@ def seed_run(tier, idx, _):
             names[str(i)] = list(parse_case(c, src)["params"].keys())
         except Exception as e:
             names[str(i)] = ["RAISE:" + type(e).__name__]
-    d1 = dict.fromkeys(["a", "b", "c", "k1", "k2"])
-    return {"names": names, "probe": list(d1.keys() - {"a": 1}.keys())}
+    d1 = dict.fromkeys(POS + KW)
+    return {"names": names, "probe": list(d1.keys() - {POS[0]: 1}.keys())}
 
 
 CHECK = C07
